@@ -1,6 +1,7 @@
 import CedarVerif.Lemmas.TypecheckOps
 import CedarVerif.Lemmas.TypecheckTags
 import CedarVerif.Lemmas.TypecheckIn
+import CedarVerif.Lemmas.TypecheckExt
 import CedarVerif.Lemmas.TypecheckDefs2
 /-
 C03: soundness of the typechecker model in strict mode on the second fragment (`InFragment2`): the induction.
@@ -63,7 +64,33 @@ theorem sound2 {s : Schema} {env : RequestEnv} {w : World} (hWF : SchemaWF2 s) (
         obtain ⟨u, hu, hty⟩ := hs.slots.2 t hsl
         exact Good.value (v := .prim (.entityUID u)) (by simp [evaluate, hu]) (.entity u _ (by simp [hty]))
   | .unknown _ _, hf, _, _, _, _ => by simp [InFragment2] at hf
-  | .call _ _, hf, _, _, _, _ => by simp [InFragment2] at hf
+  | .call fn args, hf, caps, τ, c', h => by
+    simp only [InFragment2] at hf
+    have ih := sound2List hWF henv args hf
+    simp only [typeOf] at h
+    cases hsig : extSig fn with
+    | none =>
+      rw [hsig] at h; simp only at h
+      split at h <;> cases h
+    | some sig =>
+      rw [hsig] at h; simp only at h
+      cases hL : typeOfList .strict s env args caps with
+      | error err => rw [hL] at h; cases h
+      | ok τs =>
+        rw [hL] at h; simp only at h
+        split at h
+        · cases h
+        · rename_i hnf
+          split at h
+          · rename_i hall
+            simp only [ok, Except.ok.injEq, Prod.mk.injEq] at h; obtain ⟨rfl, rfl⟩ := h
+            have hlen : τs.length = sig.args.length := by
+              rw [typeOfList_length hL]
+              simp only [Bool.or_eq_true, not_or, bne_iff_ne, ne_eq, Decidable.not_not] at hnf
+              exact hnf.1.1
+            obtain ⟨_, gl⟩ := ih caps τs hL
+            exact ⟨extSig_ret_mono hsig, fun hs hc => call_good hsig (gl hs hc) hlen hall⟩
+          · cases h
   | .and a b, hf, caps, τ, c', h => by
     simp only [InFragment2, Bool.and_eq_true] at hf
     have iha := sound2 hWF henv a hf.1
